@@ -6,7 +6,7 @@
 From Verif Require Import Base.Sx Model.FsCrash.
 
 Definition filed_save_protocol : protocol :=
-  [(OpOpen, Some []) (* offset.go:244 *);
+  [(OpOpen, Some []) (* offset.go:238 *);
    (OpWrite, Some [OpRemove; OpClose]) (* offset.go:292 *);
    (OpSync, Some [OpRemove; OpClose]) (* offset.go:299 *);
    (OpRename, None) (* offset.go:306 *);
